@@ -103,6 +103,8 @@ class C16(Case):
                 else:
                     q = an(set_of(sel, *conds))
             res = list(q.evaluate())
+            if sp.get("twice"):
+                res = list(q.evaluate())      # the obligations are stated on the RE-evaluation
         except Exception as ex:
             return data, ["exc", type(ex).__name__, str(ex)[:200]]
         rows = []
@@ -210,7 +212,9 @@ def make_case(spec):
 def shapes(tier, seed):
     out = []
     conds = [None, ["e>", 1], ["p>", 0], ["e>p"], ["p==e"], ["and", ["e>", 0], ["p>", 0]], ["or", ["e>", 1], ["p>", 1]],
-             ["not", ["e>p"]], ["or", ["e>p"], ["p>", 2]]]
+             ["not", ["e>p"]], ["or", ["e>p"], ["p>", 2]], ["or", ["and", ["e>", 2], ["p>", 0]], ["p==e"]],
+             ["or", ["and", ["e>", 1], ["p>", 1]], ["p>", 3]],
+             ["and", ["e>", 0], ["not", ["e>", 2]]], ["or", ["e>", 2], ["not", ["e>", 0]]]]
     sels = [(["e"], "entity"), (["e"], "set_of"), (["p", "e"], "set_of"), (["e", "p"], "set_of"), (["pk", "e"], "set_of"),
             (["p", "ew"], "set_of"), (["ew"], "entity")]
     np_ = 2
@@ -225,6 +229,9 @@ def shapes(tier, seed):
     for c in (None, ["e>", 1]):
         for sel, form in [(["p", "e"], "set_of"), (["e", "p"], "set_of"), (["e"], "entity")]:
             out.append(dict(parents=2, cands=2, cond=c, select=sel, form=form, repeat=True))
+    for c in conds[1:]:
+        out.append(dict(parents=np_, cands=nc, cond=c, select=["p", "e"], form="set_of", twice=True))
+        out.append(dict(parents=np_, cands=nc, cond=c, select=["e"], form="entity", twice=True))
     return out
 
 
